@@ -1,4 +1,5 @@
 """Per-property check definitions. Each returns (level, coverage, assumptions)."""
+import glob as globmod
 import json
 import os
 import shutil
@@ -885,8 +886,15 @@ STORE_MC = {
     "poll":   ("StoreMC.poll.cfg", {"CallerSet": '{"k1"}', "Acts": '{"newstore", "fail", "refresh", "svc", "handle", "read"}'}, {}),
     "lookup": ("StoreMC.lookup.cfg", {"CallerSet": '{"k1", "k2"}'}, {"Steps": "{300000}", "Horizon": 600000}),
     "reads":  ("StoreMC.reads.cfg", {"Acts": '{"newstore", "refresh", "svc", "handle", "read", "lookup", "close", "tick"}', "CacheKinds": '{"undeclared"}'}, {}),
+    "race":   ("StoreMC.race.cfg", {}, {}),
     "expiry": ("StoreMC.expiry.cfg", {"Expiries": "{30000}", "CacheKinds": '{"undeclared"}', "Horizon": 31000}, {}),
 }
+
+
+# simulation explores products that are beyond exhaustive reach (more callers)
+SIM_CONSTS = {"reads": {"CallerSet": '{"k1", "k2"}', "CacheKinds": '{"undeclared", "empty", "none"}'}, "lookup": {"CallerSet": '{"k1", "k2", "k3"}'}, "poll": {"CallerSet": '{"k1", "k2"}', "LookupDeadlines": "{0, 10000}",
+                                                                                                            "Steps": "{1000, 10000}", "Horizon": 30000,
+                                                                                                            "Acts": '{"newstore", "fail", "refresh", "svc", "handle", "read", "cachefault", "cancel"}'}}
 
 
 def store_mc(ctx, fam, invariants_note):
@@ -906,9 +914,21 @@ def store_check(ctx, fams, profiles, n_quick, n_thorough, explanation, extra=Non
         for k in tot:
             tot[k] += st[k]
         samples += (r.get("samples") or [])[:1]
+    # direction A: behaviours simulated by TLC from the same configurations, forced on the real store
+    forced = {"behaviours": 0, "accepted": 0, "steps_applied": 0, "steps_skipped": 0}
+    for f in fams:
+        st = store_scripts(ctx, f, int(os.environ.get("VERIF_SIM_N", 4000 if th else 600)), 45, consts=SIM_CONSTS.get(f))
+        forced["behaviours"] += st["histories"]
+        forced["accepted"] += st["accepted"]
+        forced["steps_applied"] += st["steps_applied"]
+        forced["steps_skipped"] += st["steps_skipped"]
+        tot["accepted"] += st["accepted"]
+        tot["events"] += st["events"]
+        tot["histories"] += st["histories"]
     cov = {"states": sum(r.distinct for r in runs), "transitions": sum(r.generated for r in runs),
            "traces_validated_against_impl": tot["accepted"], "samples": samples,
            "trace_events_validated": tot["events"], "histories_recorded": tot["histories"],
+           "tlc_behaviours_forced_on_real_store": forced,
            "explanation": explanation}
     if extra:
         cov.update(extra)
@@ -942,7 +962,7 @@ def c11(ctx):
 
 @check("C16")
 def c16(ctx):
-    cov = store_check(ctx, ["lookup"], ["lookup"], 200, 3000,
+    cov = store_check(ctx, ["lookup"], ["lookup", "lookupx"], 200, 3000,
                       "Store.tla models lookups: the gate (no request when lookups are disabled), one flight per name, per-caller contexts with the "
                       "five-minute fallback, retry after the leader's context ended, give-up at the caller's own deadline. TLC checks LookupGate, "
                       "Bounded and NotCollateral over callers x deadlines x cancellations x services that answer, fail or hang (explicit clock); "
@@ -1055,7 +1075,7 @@ def c15(ctx):
 @check("C12")
 def c12(ctx):
     th = ctx.thorough
-    cov = store_check(ctx, ["reads"], ["reads", "creads"], 150, 2000,
+    cov = store_check(ctx, ["reads", "race"], ["reads", "creads"], 150, 2000,
                       "Store.tla makes calling a handle an action that is enabled in every state in which the handle exists (during construction of "
                       "a successor store, polls, lookups, the expiry sweep, after Close) and returns the version most recently installed for that "
                       "name. TLC checks HandleNeverDangles, InstalledServed, InstLast and ReadServed over handles x reads x polls (ticks and refreshes) "
@@ -1081,3 +1101,109 @@ def c12(ctx):
     return "model_checking", cov, ["'no data race' is Go's memory model: decided by the race detector on the concurrent histories and the stress runs",
                                    "a handle call that stays blocked for 20 s of real time is reported by a watchdog outside the virtual-time bubble",
                                    "values are 64-byte patterns unique per (name, version), so a torn or foreign value is recognisable"]
+
+
+# ----------------------------------------------------------------------------- direction A for the client store:
+# behaviours generated by TLC (-simulate) from Store.tla are forced on the real store: every environment
+# step of the behaviour (construction, service change, clock step, refresh / tick / lookup / cancel /
+# handle / read / close, the release of a request with its outcome) is applied by the driver in the
+# behaviour's order; what the real store does in between is recorded and validated as usual.
+def behaviour_to_script(states):
+    import tlaval
+    nil = tlaval.is_nil
+    steps = []
+    prev = None
+    started = False
+    for st in states:
+        out = st.get("out") or {}
+        ev = out.get("ev")
+        now_prev = prev["now"] if prev else 0
+        if ev == "newstore":
+            cfg = st["cfg"]
+            s = {"do": "restart" if started else "newstore", "declared": sorted(tlaval.setof(cfg["declared"])), "allowlookup": cfg["allowLookup"],
+                 "expiry": cfg["expiry"], "auto": cfg["auto"]}
+            dl = st["ini"]["deadline"]
+            if not nil(dl):
+                s["deadline"] = dl - st["now"]
+            c = st["cache"]
+            if not started:
+                if c["kind"] == "doc":
+                    s["cachekind"] = "doc"
+                    s["cachedoc"] = [{"name": n, "ver": e["ver"], "la": e["la"]} for n, e in sorted(c["doc"].items()) if not nil(e)]
+                else:
+                    s["cachekind"] = c["kind"]
+            steps.append(s)
+            started = True
+        elif ev == "svc":
+            steps.append({"do": "svc", "name": out["name"], "ver": out["ver"]})
+        elif ev == "svcmode":
+            steps.append({"do": "svcmode", "name": out["name"], "mode": out["mode"]})
+        elif ev == "adv":
+            steps.append({"do": "advance", "ms": out["t"] - now_prev})
+        elif ev == "refresh":
+            if out["caller"] == "poller":
+                steps.append({"do": "tick"})
+            else:
+                s = {"do": "refresh", "caller": out["caller"]}
+                own = st["call"][out["caller"]].get("own") if not nil(st["call"][out["caller"]]) else None
+                if own is not None and not nil(own):
+                    s["deadline"] = own - st["now"]
+                steps.append(s)
+        elif ev == "lookup" or (ev == "ret" and out.get("call") == "lookup" and "name" in out):
+            s = {"do": "lookup", "caller": out["caller"], "name": out["name"]}
+            c = st["call"][out["caller"]]
+            if ev == "lookup" and not nil(c) and not c.get("fallback"):
+                s["deadline"] = c["own"] - st["now"]
+            # the model separates "the name is unknown" from "enter the flight": hold the caller there when
+            # the model lets something else happen in between
+            s["park"] = ev == "lookup"
+            steps.append(s)
+        elif ev in ("lead", "join"):
+            steps.append({"do": "unpark", "caller": out["caller"]})
+        elif ev == "cancel":
+            steps.append({"do": "cancel", "caller": out["caller"]})
+        elif ev == "handle":
+            steps.append({"do": "handle", "name": out["name"]})
+        elif ev == "read":
+            steps.append({"do": "read", "name": out["name"]})
+        elif ev in ("closing", "close") and (ev == "closing" or not (prev and prev.get("closed") == "closing")):
+            steps.append({"do": "close"})
+        elif ev == "cachefault":
+            steps.append({"do": "cachefault", "wfail": out["wfail"]})
+        elif ev in ("resp", "lookupend"):
+            kind = out.get("kind", "get")
+            steps.append({"do": "respond", "name": "%s/%s" % (out["name"], kind), "forceerr": bool(out.get("force"))})
+        prev = st
+    return steps
+
+
+def store_scripts(ctx, fam, n, depth, consts=None, race=False):
+    """TLC -simulate behaviours of the StoreMC configuration `fam` -> scripts -> real store -> validated traces."""
+    import tlaval
+    f, q, t = STORE_MC[fam]
+    d = os.path.join(ctx.scratch, "sim-" + fam)
+    os.makedirs(d, exist_ok=True)
+    cs = dict(t if ctx.thorough else q)
+    cs.update(consts or {})
+    run = ctx.tlc("StoreMC", f, workers=1, name="sim-" + fam, timeout=1500, heap="4g", consts=cs,
+                  simulate="file=%s,num=%d" % (os.path.join(d, "beh"), n), depth=depth)
+    ctx.tlc_must_pass(run, "simulation of Store (%s)" % fam)
+    scripts = []
+    for p in sorted(globmod.glob(os.path.join(d, "beh_*"))):
+        steps = behaviour_to_script(list(tlaval.read_behaviour(p)))
+        while steps and steps[0]["do"] != "newstore":
+            steps.pop(0)      # the clock may move before anything is constructed
+        if steps and steps[0]["do"] == "newstore":
+            scripts.append(steps)
+        os.unlink(p)
+    if len(scripts) < n // 2:
+        raise ToolTrouble("only %d of %d simulated behaviours could be turned into scripts" % (len(scripts), n))
+    sp = os.path.join(d, "scripts.ndjson")
+    write_ndjson(sp, scripts)
+    results, wd, code = ctx.godrive("store", "^TestStoreScript$", env={"VERIF_SCRIPTS": sp}, name="script-" + fam, race=race, timeout=1700)
+    r = ctx.take(results, "store-script")
+    st = validate_branching(ctx, "StoreTrace", "StoreTrace.cfg", os.path.join(wd, "trace.ndjson"), 16 if ctx.thorough else 8, "store/script-" + fam,
+                            {"dict.ndjson": os.path.join(wd, "dict.ndjson")}, describe=describe_store_event)
+    st["steps_applied"] = r["counters"].get("applied", 0)
+    st["steps_skipped"] = r["counters"].get("skipped", 0)
+    return st
